@@ -16,7 +16,7 @@ import re
 from hypothesis import strategies as st
 
 from pbt import dsl, findings
-from pbt.common import Violation, run_hypothesis
+from pbt.common import Violation, guarded, run_hypothesis
 
 ID = 'C18'
 RULE = ('IPv4: all octet strings 0..999 with 0-2 leading zeros in each of the 4 positions (others fixed valid), 3- and 5-octet forms, '
@@ -227,13 +227,11 @@ def run_shard(spec, ctx):
         for t in v4_candidates():
             for ext in (False, True):
                 n += 1
-                try:
-                    want = check_exact('IPv4', ext, t, ctx, n % 53 == 0)
-                except Violation as v:
-                    if v.kind not in ctx.suppressed:
-                        ctx.record_violation(v, shrunk=False)
-                        ctx.suppressed.add(v.kind)
+                res = []
+                if not guarded(ctx, {'mode': 'exact', 'kind': 'IPv4', 'ext': ext, 'text': t},
+                               lambda: res.append(check_exact('IPv4', ext, t, ctx, n % 53 == 0))):
                     continue
+                want = res[0]
                 o = t.split('.')
                 nt = any(len(x) >= 3 or (len(x) > 1 and x[0] == '0') for x in o)
                 ctx.case(['IPv4', ext, t], nt, sample={'class': 'IPv4', 'candidate': t, 'valid': want} if nt and n % 211 == 0 else None)
@@ -244,13 +242,11 @@ def run_shard(spec, ctx):
         for t, shape in v6_shapes(spec['conc'], rng):
             for ext in (False, True):
                 n += 1
-                try:
-                    want = check_exact('IPv6', ext, t, ctx, n % 53 == 0)
-                except Violation as v:
-                    if v.kind not in ctx.suppressed:
-                        ctx.record_violation(v, shrunk=False)
-                        ctx.suppressed.add(v.kind)
+                res = []
+                if not guarded(ctx, {'mode': 'exact', 'kind': 'IPv6', 'ext': ext, 'text': t},
+                               lambda: res.append(check_exact('IPv6', ext, t, ctx, n % 53 == 0))):
                     continue
+                want = res[0]
                 L, dc, R, nd, an = shape
                 nt = dc or nd > 0 or 6 <= L + R <= 9
                 ctx.case(['IPv6', ext, t], nt, sample={'class': 'IPv6', 'candidate': t, 'valid': want, 'shape': list(shape)} if nt and n % 97 == 0 else None)
